@@ -12,14 +12,14 @@
 //
 // HAND-WRITTEN / ASSUMED: `PartialEq for MontyParams` (a `#[derive(PartialEq)]` in /repo: field-wise equality; the derive
 // is not extracted) as `*self == *other`; `Debug for MontyParams` (only needed to type `debug_assert_eq!`).
-// `debug_assert_eq!` reaches `core::panicking::assert_failed`, whose `requires false` is assumed in l7_boxed_slices.rs
-// (a crate can hold one specification per function; it belongs in l0_corespec).
+// `debug_assert_eq!` reaches `core::panicking::assert_failed`, whose `requires false` is assumed in l0_corespec.rs.
 use vstd::prelude::*;
 use vstd::arithmetic::power::*;
 use vstd::arithmetic::div_mod::*;
 use vstd::arithmetic::mul::*;
 use core::ops::{Mul, MulAssign};
 use crate::speclib::*;
+use crate::l0_corespec::*;
 use crate::l0_prim::*;
 use crate::l1_choice::*;
 use crate::l1_limb::*;
@@ -30,7 +30,6 @@ use crate::l4_int::*;
 use crate::l5_monty::*;
 use crate::l6_montyform::*;
 use crate::l6_montyform_ct::*;
-use crate::l7_boxed_slices::*;
 use crate::l7_traits::*;
 
 // `#[derive(Debug)]` of /repo (not extracted); external to the verifier, needed only for the type of `debug_assert_eq!`
